@@ -70,6 +70,10 @@ def check(model: Model, report: Report) -> None:
     from .c05 import check_singular
 
     check_singular(model, report, "R03.S", only=True)
+    from .c05 import check_typing_table
+
+    report.rule("R03.TY", "every well-typed function argument (3 parameter types x 16 argument classes x parameter positions x any registry) is accepted by check_well_typedness: the accepting half of C05's typing table")
+    check_typing_table(model, report, "R03.TY", "R03.TY", only_valid=True)
     from . import _shapes
 
     _shapes.check_shapes(model, report, "R03.G", want_valid=True)
